@@ -611,6 +611,7 @@ type section struct {
 }
 
 func TestCheck(t *testing.T) {
+	vk.UseT(t)
 	r := vk.Start("C13", "model_checking", 150*time.Second, 24*time.Minute)
 	r.SetSampleCap(10)
 	// (i) the model alone against the reference facts: a failure is an error
